@@ -734,7 +734,7 @@ func main() {
 		ID: "C20", Model: "C20", Gen: gen, Impl: impl, Oracle: oracle,
 		Cases: func(th bool) int {
 			if th {
-				return 60000
+				return 40000
 			}
 			return 2500
 		},
